@@ -428,6 +428,7 @@ fn exit_with_garbage(p: &Params) -> Program {
     let j = p.get("j", 1) as usize;
     // 0 flush then exit; 1 exit with the bag unflushed; 2 handle dropped while a guard is alive;
     // 3 as 1, and nobody runs rounds afterwards: the collector is dropped with work pending
+    // 4 as 1, after a reactivation of one of two nested guards earlier in the thread's life
     let mode = p.get("mode", 1);
     let ew = EWorld::new(e0);
     let ew2 = ew.clone();
@@ -442,6 +443,14 @@ fn exit_with_garbage(p: &Params) -> Program {
         threads: vec![
             ebody(&ew, move |c, ew| {
                 let mut h = Some(ew.handles[0].take().0);
+                if mode == 4 {
+                    let g1 = c.pin(h.as_ref().unwrap());
+                    let mut g2 = c.pin(h.as_ref().unwrap());
+                    c.reactivate(&mut g2);
+                    c.reactivate_after(&mut g2, || {});
+                    c.unpin(g2);
+                    c.unpin(g1);
+                }
                 let g = c.pin(h.as_ref().unwrap());
                 let mut g = Some(g);
                 for i in 0..=k {
